@@ -162,10 +162,28 @@ def generate(seed, tier):
             late.append({"id": f"{os.path.basename(rel)}-late-d{deg}", "text": text2, "ast": prog2.to_json(), "cand": cand, "deg": deg, "k": None,
                          "inits": K.frac_enc(inits), "params": K.frac_enc(params), "N": 3,
                          "features": ["file:" + os.path.basename(rel), f"deg:{deg}", "effective-variable-updated-after-use"], "mode": "inv"})
+            # ... and through a copy: the uses read wq, which copies v at the end of the iteration BEFORE v is updated, so the
+            # effective monomial deviates from its general form for TWO iterations (wq0, then v0, then the stationary law)
+            def ren(x):
+                if isinstance(x, tuple):
+                    return ("var", "wq") if x == ("var", v) else tuple(ren(y) for y in x)
+                if isinstance(x, list):
+                    return [ren(y) for y in x]
+                return x
+            if "wq" not in pv:
+                init3 = list(init) + [("assign", "wq", ("poly", _num(rng.choice([5, -2, 4]))))]
+                prog3 = Program(prog.typedefs, init3, prog.guard, ren(body[1:]) + [("assign", "wq", ("poly", ("var", v))), body[0]])
+                text3 = program_str(prog3)
+                inits3 = dict(inits, wq=Fraction(1))
+                late.append({"id": f"{os.path.basename(rel)}-late2-d{degs[0]}", "text": text3, "ast": prog3.to_json(), "cand": cand, "deg": degs[0], "k": None,
+                             "inits": K.frac_enc(inits3), "params": K.frac_enc(params), "N": 5,
+                             "features": ["file:" + os.path.basename(rel), f"deg:{degs[0]}", "effective-variable-read-through-copy-two-step-transient"], "mode": "inv"})
     rng0.shuffle(cases)
     rng0.shuffle(rinit)
     rng0.shuffle(late)
     nr = 6 if tier == "quick" else 60
+    two = [c for c in late if "late2" in c["id"]]
+    late = two[: nr // 2] + [c for c in late if "late2" not in c["id"]]
     return rinit[:nr] + late[:nr] + cases[: (26 if tier == "quick" else 400)]
 
 
